@@ -106,6 +106,25 @@ def c01_sigs(schema, doc, op=None):
     return sigs
 
 
+def duplicate_response_keys(doc):
+    """Is some response key selected twice by plain fields of ONE selection set - directly, or through several inline
+    fragments with the same type condition, whose fields end up in one variant struct (legal: the selections merge)?"""
+    def dup(keys):
+        return len(keys) != len(set(keys))
+
+    def walk(sel):
+        if dup([x.key for x in sel if isinstance(x, Field)]):
+            return True
+        by_type = {}
+        for x in sel:
+            if isinstance(x, Inline):
+                by_type.setdefault(x.on, []).extend(y.key for y in x.sel if isinstance(y, Field))
+        if any(dup(ks) for ks in by_type.values()):
+            return True
+        return any(walk(x.sel) for x in sel if not isinstance(x, Spread) and x.sel)
+    return any(walk(d.sel) for d in doc.defs)
+
+
 def strip_indices(path):
     return re.sub(r"\[\d+\]", "", path)
 
